@@ -763,12 +763,19 @@ def s_format(I, a, k):
     return I.ops.opaque_str("format")
 
 
+STRPREDS: dict = {}  # (predicate, literal arguments) used anywhere in this process: universally valid ground facts follow
+
+
 def _str_pred(fname):
     def f(I, a, k):
         s = a[0]
         if s.lit is not None and all(isinstance(x, SStr) and x.lit is not None for x in a[1:]):
             return SBool(z3.BoolVal(getattr(s.lit, fname)(*[x.lit for x in a[1:]])))
         fn = z3.Function("str_" + fname, *([z3.IntSort()] * len(a)), z3.BoolSort())
+        if all(isinstance(x, SStr) and x.lit is not None for x in a[1:]):
+            # the predicate is an uninterpreted function of the string code; its value on every interned literal is the
+            # real one -- ground facts of the string theory, added when an obligation is discharged (verify.string_facts)
+            STRPREDS[(fname, tuple(x.lit for x in a[1:]))] = True
         return SBool(fn(*[x.t for x in a]))
     return f
 
